@@ -84,7 +84,7 @@ def key(rec):
 def run(out: Outcome, drv, frontends=None):
     sc.install_probes()
     frontends = frontends or sc.FRONTENDS
-    n = 60 if out.tier == "quick" else 1500
+    n = 120 if out.tier == "quick" else 1500
     maxn = 10 if out.tier == "quick" else 40
     out.rule = ("generated tables (0..10 rows quick / 40 thorough, default / shifted / permuted / string row index, with and without "
                 "z/lat/lon) and configs (1..3 contexts: closed, half-open, gapped, empty, all-covering, absent windows with bounds on, "
